@@ -547,12 +547,19 @@ func TestVerifC12Wheel(t *testing.T) {
 					pend = append(pend, key)
 				}
 				sort.Strings(pend)
-				if len(pend) > 0 && rapid.IntRange(0, 7).Draw(t, "anykey") != 0 {
+				anyKey := rapid.IntRange(0, 7).Draw(t, "anykey") == 0
+				if len(pend) > 0 && !anyKey {
 					k = rapid.SampledFrom(pend).Draw(t, "pendingKey")
 				} else {
 					k = keyGen.Draw(t, "key")
 				}
 				steps, rem := delay(t)
+				if len(pend) == 0 && !anyKey {
+					// nothing to move: make something pending instead
+					val++
+					do(c12Op{kind: 's', key: k, val: val, steps: steps, rem: rem})
+					return
+				}
 				do(c12Op{kind: 'm', key: k, steps: steps, rem: rem})
 			},
 			"remove": func(t *rapid.T) {
@@ -569,6 +576,7 @@ func TestVerifC12Wheel(t *testing.T) {
 				do(c12Ticks(k)...)
 			},
 		})
+		wrappedInBody := r.now >= n
 		if finish == "drain" {
 			do(c12Op{kind: 'd'})
 		}
@@ -590,8 +598,8 @@ func TestVerifC12Wheel(t *testing.T) {
 		if n > 8 {
 			st.Class("slots>8")
 		}
-		if r.now >= n {
-			st.Class("position-wrapped")
+		if wrappedInBody {
+			st.Class("position-wrapped-before-epilogue")
 		}
 		if r.hardChecked > 0 {
 			st.NonTrivial(r.history())
